@@ -4,8 +4,8 @@ import (
 	"fmt"
 	"math"
 	"reflect"
-	"strings"
 	"regexp"
+	"strings"
 
 	"go.flow.arcalot.io/pluginsdk/schema"
 	"harness/hx"
@@ -141,6 +141,24 @@ func tyCores() []tyCore {
 		{"oneof-string[any]", func() schema.Type {
 			return schema.NewOneOfStringSchema[any](map[string]schema.Object{"c": tyCircleObj(), "q": tySquareObj()}, "kind", false)
 		}},
+		{"oneof-string written as a literal, struct members", func() schema.Type {
+			// no constructor: the unexported interface type stays unset, which the library supports (ReflectedType says `any`)
+			return &schema.OneOfSchema[string]{
+				TypesValue:                  map[string]schema.Object{"c": tyCircleObj(), "q": tySquareObj()},
+				DiscriminatorFieldNameValue: "kind",
+			}
+		}},
+		{"oneof-int written as a literal, struct members", func() schema.Type {
+			return &schema.OneOfSchema[int64]{
+				TypesValue:                  map[int64]schema.Object{0: tyCircleObj(), 1: tySquareObj()},
+				DiscriminatorFieldNameValue: "k",
+			}
+		}},
+		{"oneof-string written as a literal, inlined struct members", func() schema.Type {
+			c := tyInlinedStr().(*schema.OneOfSchema[string])
+			return &schema.OneOfSchema[string]{TypesValue: c.TypesValue, DiscriminatorFieldNameValue: c.DiscriminatorFieldNameValue,
+				DiscriminatorInlined: c.DiscriminatorInlined}
+		}},
 		{"object with display data", func() schema.Type {
 			dp := func(t schema.Type, d *schema.DisplayValue) *schema.PropertySchema {
 				if d == nil {
@@ -162,7 +180,7 @@ func tyCores() []tyCore {
 		{"oneof-string inlined struct members", tyInlinedStr},
 		{"oneof-int map members", func() schema.Type {
 			return schema.NewOneOfIntSchema[any](map[int64]schema.Object{
-				0: schema.NewObjectSchema("A", map[string]*schema.PropertySchema{"x": tyProp(schema.NewAnySchema(), false)}),
+				0:  schema.NewObjectSchema("A", map[string]*schema.PropertySchema{"x": tyProp(schema.NewAnySchema(), false)}),
 				-1: schema.NewObjectSchema("B", map[string]*schema.PropertySchema{"y": tyProp(schema.NewIntSchema(nil, nil, nil), false)}),
 			}, "k", false)
 		}},
@@ -273,6 +291,20 @@ func groupTyped(s *sink, g *hx.Gen) {
 		s.finding(Finding{Prop: "C04", What: "constructing " + where + " panicked: " + r.Msg})
 		return
 	}
+	// every schema is compatible with itself and with a twin built the same way (C15), whatever its Go type
+	for _, twin := range []struct {
+		name string
+		mk   func() schema.Type
+	}{{"itself", func() schema.Type { return sch }}, {"a twin built the same way", func() schema.Type { return wrap.ty(core.build()) }}} {
+		var cerr error
+		cr := hx.Guard(func() hx.Result { cerr = sch.ValidateCompatibility(twin.mk()); return hx.Result{R: "ok"} })
+		s.stats["typed:selfcompat"]++
+		if cr.R != "ok" {
+			s.finding(Finding{Prop: "C04", What: "ValidateCompatibility of a schema with " + twin.name + " panicked: " + cr.Msg, Detail: []string{where}})
+		} else if cerr != nil {
+			s.finding(Finding{Prop: "C15", What: "a schema is reported incompatible with " + twin.name, Detail: []string{where, cerr.Error()}})
+		}
+	}
 	inputs := tyTargeted()
 	for i := 0; i < 6; i++ {
 		inputs = append(inputs, g.RandomVal(0).ToGo())
@@ -380,7 +412,9 @@ func tyAPISchemas() []tyCore {
 		{"int enum", func() schema.Type {
 			return schema.NewIntEnumSchema(map[int64]*schema.DisplayValue{1: nil, 1024: nil}, schema.UnitBytes)
 		}},
-		{"string enum", func() schema.Type { return schema.NewStringEnumSchema(map[string]*schema.DisplayValue{"a": nil, "5": nil}) }},
+		{"string enum", func() schema.Type {
+			return schema.NewStringEnumSchema(map[string]*schema.DisplayValue{"a": nil, "5": nil})
+		}},
 		{"typed string enum", func() schema.Type {
 			return schema.NewTypedStringEnumSchema(map[tyColour]*schema.DisplayValue{"red": nil, "green": nil})
 		}},
@@ -501,7 +535,11 @@ func groupTypedAPI(s *sink, g *hx.Gen) {
 		}
 		if a, ok := conv(mV); ok {
 			var e1, e2 error
-			r := hx.Guard(func() hx.Result { e1 = asErr(mV.Call([]reflect.Value{a})[0]); e2 = sch.Validate(untyped); return hx.Result{R: "ok"} })
+			r := hx.Guard(func() hx.Result {
+				e1 = asErr(mV.Call([]reflect.Value{a})[0])
+				e2 = sch.Validate(untyped)
+				return hx.Result{R: "ok"}
+			})
 			s.stats["typedapi:V"]++
 			if r.R == "panic" {
 				s.finding(Finding{Prop: "C04", What: "ValidateType / Validate panicked on an unserialized value: " + r.Msg, Detail: []string{desc}})
